@@ -37,7 +37,12 @@ def replay(pid, path, as_json):
     import warnings
     warnings.filterwarnings('ignore')
     check = engine.load_check(pid)
-    r, herr = engine.run_single(check, tier, d['case'])
+    if d.get('history'):
+        r, herr = engine.run_history(check, tier, d['history'], d['index'])
+        if r is None and herr is None:
+            herr = 'history replay did not reach case %s' % d['index']
+    else:
+        r, herr = engine.run_single(check, tier, d['case'])
     if herr is not None:
         print('HARNESS-ERROR:\n' + herr)
         return 2
